@@ -91,6 +91,9 @@ static inline _Bool cm_str_empty(struct cm_string *a) { return a->n == 0; }
 #define CM_LT_STR(a, b) cm_str_lt((a), (b))
 #define CM_EQ_STR(a, b) cm_str_eq((a), (b))
 
+#define CM_DBL_INF (1.0 / 0.0)
+static inline _Bool cm_isfinite(double x) { return x == x && x != CM_DBL_INF && x != -CM_DBL_INF; }
+
 /* libm on the small integer-valued arguments the code uses (product encoding of at-most-one): sqrt is exact on perfect
  * squares and strictly between the neighbouring integers otherwise; ceil on |x| < 2^31 */
 static inline double cm_sqrt(double x)
